@@ -7,14 +7,7 @@ HERE = Path(__file__).resolve().parent
 ALL = [f"C{i:02d}" for i in range(1, 21)]
 
 # id -> dict(text, note, technique, design_ref)
-CLAIMED = {
-    "C01": dict(
-        text="Lean 4 theorems about a hand-written mirror of the slice-record arithmetic (constructor/representation invariant, ...) tied to sequence.SeqView, new_sequence.SeqView and new_alignment.SeqDataView by an exhaustive-box + seeded random correspondence run on every check; the Sequence wrapper (complementing, conversions, read-only methods, parent coordinates) is decided by a spec-level differential against plain Python strings. Partial: the read-only-method clause and the wrapper have no theorem of their own.",
-        note="Trusted: Lean kernel, axioms propext/Classical.choice/Quot.sound, Model/View.lean being a faithful mirror (checked by correspondence, not proved), Spec/PySlice.lean (validated against CPython each run), the Python harness.",
-        technique="Lean 4 proof (invariant + refinement to Python slice semantics) + model/implementation correspondence",
-        design_ref="6/C01",
-    ),
-}
+CLAIMED = {}
 
 for _f in sorted((HERE / "manifest.d").glob("C*.json")):
     CLAIMED[_f.stem] = json.loads(_f.read_text())
